@@ -908,7 +908,14 @@ func (in *Interp) valuesEqual(a, b Value, t types.Type) *sym.Term {
 			if b == nil {
 				return B.Bool(x.T == nil)
 			}
-			panic(fmt.Sprintf("eq iface vs %T", b))
+			// mixed comparison (interface operand against a concrete operand of its dynamic type)
+			if x.T == nil {
+				if p, ok := b.(Pointer); ok {
+					return B.Bool(p.O == nil)
+				}
+				return B.False
+			}
+			return in.valuesEqual(x.V, b, x.T)
 		}
 		if x.T == nil || y.T == nil {
 			return B.Bool(x.T == nil && y.T == nil)
